@@ -2259,7 +2259,8 @@ fn oracle_c13(fields: &[&str]) -> String {
         }
         let want = [(y[0] - fx) * k + fx + ox, (y[1] - fy) * k + fy + oy];
         for j in 0..2 {
-            let scale = want[j].abs().max(1.0);
+            // the magnitudes that went through the arithmetic (a false northing of 1e7 m costs 2e-9 m per operation)
+            let scale = want[j].abs().max(y[j].abs()).max(if j == 0 { fx.abs().max(ox.abs()) } else { fy.abs().max(oy.abs()) }).max(1.0) * 4.0;
             let (rel, abs) = if kind == "close" { (1e-9, 1e-6) } else { (4e-15, 2e-9 * (scale / 1e6).max(1.0)) };
             if !close(x[j], want[j], rel, abs) {
                 return format!("oracle FAIL [{kind}] tuple {i} element {j}: {a} gives {}, expected {} from {b}", x[j], want[j]);
@@ -2944,7 +2945,8 @@ fn oracle_c06(fields: &[&str]) -> String {
                     return format!("oracle FAIL isometric latitude of {x} on {}: {psi} (closed form {closed}), back {}", fields[1], e.latitude_isometric_to_geographic(psi));
                 }
                 let d = e.meridian_latitude_to_distance(x);
-                if !((e.meridian_distance_to_latitude(d) - x).abs() < 1e-10) {
+                // (compact formulas: 5e-11 rad on GRS80 by the library's own tests, growing with the flattening)
+                if !((e.meridian_distance_to_latitude(d) - x).abs() < 1e-9) {
                     return format!("oracle FAIL meridian distance {d} of latitude {x} on {} comes back as {}", fields[1], e.meridian_distance_to_latitude(d));
                 }
             }
